@@ -951,19 +951,24 @@ def run_case(rng, tier, res):
     # with a zero-length data packet from the data packet generator, on a device whose standard request handler uses the
     # distributed (avoid_blockram) descriptor generator, while the current control request is a GET_DESCRIPTOR.  Everything
     # the monitors report inside such a stream is reported once, under one mechanism name; everything else keeps its name.
-    def starts_with_zlp(p):
-        d = bytes(p["data"][:3])
+    def clean_zlp(p):
+        d = bytes(p["data"])
         return len(d) == 3 and d[0] in (U.pid_byte(U.DATA0), U.pid_byte(U.DATA1)) and d[1:] == b"\x00\x00" and p["src"] == (0, 1, 0)
+
+    def zlp_like(p):
+        # a member of the stream may be garbled by the host's packet / the handshake generator running into it
+        d = bytes(p["data"])
+        return 1 <= len(d) <= 4 and d[0] in (U.pid_byte(U.DATA0), U.pid_byte(U.DATA1)) and p["src"][1] == 1
 
     streams = []
     run = []
     for p in [q for q in dpk if not q["src"][0]] + [None]:
-        if p is not None and starts_with_zlp(p) and (not run or p["first_valid"] - run[-1]["end"] <= 5):
+        if p is not None and zlp_like(p) and (not run or p["first_valid"] - run[-1]["end"] <= 5):
             run.append(p)
             continue
-        if len(run) >= 3:
+        if sum(1 for q in run if clean_zlp(q)) >= 3:
             streams.append((run[0]["first_valid"], run[-1]["end"] + 2, len(run)))
-        run = [p] if p is not None and starts_with_zlp(p) else []
+        run = [p] if p is not None and zlp_like(p) else []
     known_streams = []
     for s0, s1, n in streams:
         ctx = None
